@@ -140,6 +140,12 @@ def correspondence(ctx, model_ok=True):
     for ch in ("[", "(", "{", "-", "!", "[(", "{[", "fn f(", "f(", "a[", "\"${", "|| ", "#[", "x.y(", "1 + (", "try { ", "class A { fn m(self) { "):
         for depth in (70, 300):
             cases.append(("opench:%s:%d" % (ch, depth), ch * depth))
+    # CRLF and bare-CR line ends (token lines are compared with the reference scanner; compile-error lines with the reference parser)
+    for si, (name, src, _) in enumerate(scripts):
+        if si % (5 if ctx.thorough else 40) == 0:
+            cases.append(("crlf:" + name, src.replace("\n", "\r\n")))
+            cases.append(("crlf-cut:" + name, src.replace("\n", "\r\n")[:max(1, len(src) * 2 // 3)]))
+            cases.append(("cr-mixed:" + name, src.replace("\n", "\r\n", 3).replace(";", ";\r", 2)))
     cases += attribute_cases()
     lines = [vlib.case_line("c%d" % i, ["C:" + vlib.hx(src)], bytecode=1) for i, (_, src) in enumerate(cases)]
     res = vlib.run_real(ctx.runner, lines, timeout_per_batch=90, batch=400)
